@@ -877,8 +877,10 @@ def suite_policy_types(ctx):
 
 
 def engine_traces(ctx):
-    """Hook for the whole-engine trace harness (built separately by the lead)."""
-    pass
+    """Real engine, oracle only: with-items tasks under random delivery orders with pause/resume: running
+    items never exceed the concurrency, every index once, ordered results, final state."""
+    from harness import engine_explore as ee
+    ee.explore(ctx, ['C07', 'C01'], ['with_items'], ctx.n(24, 240), 4, suite='engine_explore_C07')
 
 
 def search(ctx):
